@@ -258,6 +258,62 @@ async fn run(name: &str) -> Result<(), String> {
             if has("lib/out/.gitignore") { return Err(format!("lib/out is ignored by the origin's .gitignore and not re-included, yet its ignore file was returned: {got:?}")); }
             if has("pkg/out/.gitignore") { Ok(()) } else { Err(format!("origin/.gitignore `out`, pkg/.gitignore `!out`: pkg/out is re-included by the nearer file, but discovery did not search it: pkg/out/.gitignore is missing from {got:?}")) }
         }
+        // C14 (BOUNDED: 150 ignore-file configurations on one tree with nested directories and a prefix-named sibling): from_origin returns exactly the
+        // ignore files of the directories reachable without entering an ignored one, judged by an independent evaluation (nearest file first, the
+        // ignore crate's matcher one file at a time), each tagged with its directory
+        "discovery_rule_bounded" => {
+            use ignore::gitignore::GitignoreBuilder;
+            use std::collections::BTreeSet;
+            let dirs = ["a", "a/b", "a/b/c", "a/b/c/d", "ab", "ab/c", "x", "x/c"];
+            let leaves = ["a/b/c", "a/b/c/d", "ab", "ab/c", "x", "x/c"];        // each holds a fixed `.ignore`, so that being searched is observable
+            let cand: [(&str, Vec<Option<&str>>); 3] = [
+                ("", vec![None, Some("c\n"), Some("c/\n"), Some("/a/b/\n"), Some("ab/\n"), Some("!c\n")]),
+                ("a", vec![None, Some("c\n"), Some("!c\n"), Some("b/\n"), Some("/b/c/\n")]),
+                ("a/b", vec![None, Some("!c\n"), Some("c\n"), Some("d/\n"), Some("!d\n")]),
+            ];
+            let mut configs = 0usize;
+            for i0 in 0..cand[0].1.len() { for i1 in 0..cand[1].1.len() { for i2 in 0..cand[2].1.len() {
+                let _ = std::fs::remove_dir_all(root.join("a")); let _ = std::fs::remove_dir_all(root.join("ab")); let _ = std::fs::remove_dir_all(root.join("x")); let _ = std::fs::remove_file(root.join(".gitignore"));
+                let _ = std::fs::remove_dir_all(root.join("test")); let _ = std::fs::remove_dir_all(root.join("tests"));
+                for d in dirs { std::fs::create_dir_all(root.join(d)).unwrap(); }
+                for l in leaves { std::fs::write(root.join(l).join(".ignore"), "leaf\n").unwrap(); }
+                let pick = [i0, i1, i2];
+                let mut gitignores: Vec<(PathBuf, String)> = vec![];
+                for (k, (d, cs)) in cand.iter().enumerate() { if let Some(c) = cs[pick[k]] { std::fs::write(root.join(d).join(".gitignore"), c).unwrap(); gitignores.push((root.join(d), c.to_string())); } }
+                configs += 1;
+                // independent evaluation
+                let ignored_dir = |p: &Path| -> bool {
+                    let mut anc: Vec<&(PathBuf, String)> = gitignores.iter().filter(|(d, _)| p.starts_with(d) && p != d.as_path()).collect();
+                    anc.sort_by_key(|(d, _)| std::cmp::Reverse(d.components().count()));
+                    for (d, content) in anc {
+                        let mut b = GitignoreBuilder::new(d);
+                        for line in content.lines() { b.add_line(None, line).unwrap(); }
+                        let gi = b.build().unwrap();
+                        let m = gi.matched_path_or_any_parents(p, true);
+                        if m.is_ignore() { return true; }
+                        if m.is_whitelist() { return false; }
+                    }
+                    false
+                };
+                let mut reach: Vec<PathBuf> = vec![root.clone()];
+                for d in dirs {      // parents come before children in `dirs`
+                    let p = root.join(d);
+                    if reach.iter().any(|r| Some(r.as_path()) == p.parent()) && !ignored_dir(&p) { reach.push(p); }
+                }
+                let mut want: BTreeSet<(PathBuf, PathBuf)> = BTreeSet::new();
+                for r in &reach { for n in [".gitignore", ".ignore"] { let f = r.join(n); if f.is_file() && std::fs::metadata(&f).unwrap().len() > 0 { want.insert((f.strip_prefix(&root).unwrap().to_owned(), r.strip_prefix(&root).unwrap().to_owned())); } } }
+                let (files, errors) = ignore_files::from_origin(root.as_path()).await;
+                if !errors.is_empty() { return Err(format!("discovery reported errors: {errors:?}")); }
+                let got: BTreeSet<(PathBuf, PathBuf)> = files.iter().map(|f| (f.path.strip_prefix(&root).unwrap_or(&f.path).to_owned(), f.applies_in.as_ref().map(|a| a.strip_prefix(&root).unwrap_or(a).to_owned()).unwrap_or_default())).collect();
+                if files.len() != got.len() { return Err(format!("a file was returned more than once: {:?}", files.iter().map(|f| &f.path).collect::<Vec<_>>())); }
+                if got != want {
+                    return Err(format!("ignore files {:?}: discovery returned (file, applies in) with unexpected {:?} and missing {:?}", gitignores.iter().map(|(d, c)| (d.strip_prefix(&root).unwrap().join(".gitignore"), c.as_str())).collect::<Vec<_>>(),
+                        got.difference(&want).collect::<Vec<_>>(), want.difference(&got).collect::<Vec<_>>()));
+                }
+            }}}
+            println!("INFO discovery_rule_bounded: {configs} configurations");
+            Ok(())
+        }
         // test/.gitignore re-includes *.rs; that negation must not leak into the sibling tests/ whose name has test as a textual prefix
         "prefix_sibling_negation" => {
             std::fs::write(root.join(".gitignore"), "*.rs\n").unwrap();
